@@ -2786,6 +2786,7 @@ func gen(g *core.G) {
 	g.Emit("@obj (struct (A iface) (B (struct (X bool)))) (st (i (ptr (struct (X bool))) (p (st t))) (st f))")
 	genIfaceStructs(g)
 	genDeclaredParents(g)
+	genUndefDefaults(g)
 	// tags of other kinds beside the puppet tag (they become a TagsAnnotation of the attribute; implementation only)
 	g.Emit(`@obj (struct (A (int 8) ` + sx.Str(`json:"a" puppet:"name=>'x'"`).Atom + `) (B string ` + sx.Str(`json:"bb,omitempty" yaml:"b"`).Atom + `)) (st 3 x61)`)
 	g.Emit(`@refl (struct (A (ptr string) ` + sx.Str(`lyra:"ignore" puppet:"value=>'d'"`).Atom + `)) (st nil)`)
